@@ -67,10 +67,12 @@ Section EncCache.
   Lemma estep_inv s o : Ienc s -> Ienc (estep s o).
   Proof.
     intros Hs. destruct o as [n|w|u n]; cbn [estep].
-    - pose proof (tame_rd _ _ _ _ (enc_reader_tame CHUNK TAG ks tagc S Iin pin M HTI HC HM) s n Hs) as H.
-      cbn [EncReader rd] in H. destruct (eread CHUNK TAG ks tagc S s n) as [s' [d|e|c]]; cbn [fst]; [exact (proj1 H)|exact (proj1 H)|destruct H].
-    - pose proof (tame_sk _ _ _ _ (enc_reader_tame CHUNK TAG ks tagc S Iin pin M HTI HC HM) s w Hs) as H.
-      cbn [EncReader sk] in H. destruct (eseek CHUNK TAG ks tagc S s w) as [s' [q|e|c]]; cbn [fst]; [exact (proj1 H)|exact (proj1 H)|destruct H].
+    - pose proof (eread_gen_tame CHUNK ks tagc S Iin pin M HC HM (eload CHUNK TAG ks tagc S) s n
+                    (eload_spec CHUNK TAG ks tagc S Iin pin M HTI HC HM) Hs) as H.
+      fold (eread CHUNK TAG ks tagc S) in H.
+      destruct (eread CHUNK TAG ks tagc S s n) as [s' [d|e|c]]; cbn [fst]; [exact (proj1 H)|exact (proj1 H)|destruct H].
+    - (* a seek keeps the invariant whatever it returns (TotalEnc.eseek_keeps_Ienc; no bound on CHUNK needed) *)
+      exact (eseek_keeps_Ienc CHUNK TAG ks tagc S Iin pin M HTI HC HM s w Hs).
     - pose proof (fs_read_tame CHUNK TAG ks tagc S Iin pin M HTI HC HM u s n Hs) as H.
       destruct (fs_read CHUNK TAG ks tagc S u s n) as [s' [d|e|c]]; cbn [fst]; [exact (proj1 H)|exact (proj1 H)|destruct H].
   Qed.
